@@ -630,6 +630,7 @@ func runC20(c *Ctx) {
 	// generated-path detection recognises exactly the reserved locations (shared with C04)
 	checkGeneratedRegexp(c)
 	checkErrBranchFails(c, "errors-surface.error-branch-fails", errBranchExceptions, "pkg/model")
+	checkStateToKeyTable(c, "builder.state-to-key")
 }
 
 // mayCoincide: can two templates produce the same string (segment-wise unification; slots match any text without '/')?
